@@ -7,10 +7,10 @@ props = [json.loads(l) for l in open(os.path.join(VERIF, "properties.jsonl"))]
 TECH = "bounded exhaustive enumeration of inputs on the real code, judged by a reference model"
 CLAIMS = {
  "C01": ("model_checking", "5 C01", "gram",
-         "Every grammar of the bounded families x every token string up to length n x all 24 flag vectors is executed on the real library; the verdict is compared with an independent span-fixpoint recogniser. Complete within the stated bounds, nothing beyond them.",
+         "Every grammar of the bounded families x every token string up to length n x all 24 flag vectors is executed on the real library; the verdict is compared with an independent span-fixpoint recogniser; the chain families CH(k) add the declaration-order axis (every order of rule groups and of start rules) that the FIRST/FOLLOW fixpoints depend on. Complete within the stated bounds, nothing beyond them.",
          TECH + " (engine gram)"),
  "C02": ("model_checking", "5 C02", "gram",
-         "All sentences of all grammars of the families, under a per-rule translation menu, parsed with one_parse=1; the returned node graph is checked structurally and its single tree must be a member of the reference set T(w) of translations of all derivations.",
+         "All sentences of all grammars of the families, under a per-rule translation menu, parsed with one_parse=1 (cost flag off and on; with the cost flag the tree is compared without cost fields); the returned node graph is checked structurally and its single tree must be a member of the reference set T(w) of translations of all derivations.",
          TECH + " (engine gram, translation menus)"),
  "C05": ("model_checking", "5 C05", "gram",
          "For every sentence of the bounded space the ambiguity flag is compared with the reference derivation count (>=2 needed for a set flag) and translation count (>=2 forces the flag), for all one_parse x cost x lookahead settings.",
@@ -43,7 +43,7 @@ CLAIMS = {
          "The enumerations of the txt, def, hist and gram engines re-run under ASan + UBSan subset + watchdog, plus long symbol names through every message-producing error (message length <= 200) and 300-symbol grammars; any sanitizer report, signal, exit() or timeout is a violation with the case attached. One known finding (D33, exponential recovery on densely recurring errors) bounds the recovery spaces to short inputs.",
          "bounded exhaustive enumeration on the real code under sanitizers as monitors (engines txt, def, hist, gram)"),
  "C10": ("model_checking", "5 C10", "def",
-         "Full product of small terminal lists x rule lists (names incl. reserved ones, codes incl. negative/repeated, 17 translation/cost forms) x strict flag; rc = 0 iff the reference WF model finds no documented defect, otherwise rc names a defect that is present; error state, refusal to parse and a following good definition are checked after every rejection.",
+         "Full product of small terminal lists x rule lists (names incl. reserved ones, codes incl. negative/repeated, 17 translation/cost forms) x strict flag; rc = 0 iff the reference WF model finds no documented defect, otherwise rc names a defect that is present; error state, refusal to parse and a following good definition are checked after every rejection. The same verdict oracle runs over every grammar of the generated families GF(..) and CH(k) in engine gram.",
          "bounded exhaustive enumeration of callback-level descriptions on the real code against a reference well-formedness model (engine def)"),
  "C14": ("model_checking", "5 C14", "hist",
          "Every history of API operations over <= 2 (thorough 3) live objects up to a depth without deduplication, plus deduplicated BFS keyed on model state + a fingerprint of the library's file-scope state + live block count; each history in a pristine process; each call compared with the same call on a fresh object, plus leak-freedom when nothing is live.",
@@ -102,7 +102,7 @@ m = {
         {"name": "def", "path": "harness/eng_def.cc", "serves_properties": ["C10", "C12"], "kind_free_text": "product enumeration of callback-level grammar descriptions, reference well-formedness model"},
         {"name": "hist", "path": "harness/eng_hist.cc", "serves_properties": ["C14", "C15"], "kind_free_text": "exploration of API call histories, one pristine forked process per history, fresh-object differential, dedup on model state + file-scope fingerprint (hook) + live blocks (hook)"},
         {"name": "cont", "path": "harness/eng_cont.cc", "serves_properties": ["C19"], "kind_free_text": "explicit-state BFS over container operation histories (C and C++), canonical layout states, harness allocator with explored realloc behaviour"},
-        {"name": "gram", "path": "harness/eng_gram.cc", "serves_properties": ["C01", "C02", "C03", "C04", "C05", "C06", "C07", "C08", "C09", "C12", "C13", "C16"],
+        {"name": "gram", "path": "harness/eng_gram.cc", "serves_properties": ["C01", "C02", "C03", "C04", "C05", "C06", "C07", "C08", "C09", "C10", "C12", "C13", "C16"],
          "kind_free_text": "explicit enumeration of bounded grammar families x inputs x flag vectors on the real library, reference-model oracle, fork-contained batches with bisection and replay-before-report"},
     ],
     "checks": checks,
